@@ -200,6 +200,8 @@ def run(module, cfg, *, workers=None, env=None, simulate=None, depth=None, seed=
     meta = scratch("tlcmeta-")
     if workers is None:
         workers = min(16, os.cpu_count() or 1)
+    if os.environ.get("VERIF_WORKERS") and workers != 1:       # tools/xmatrix.py runs several trees side by side
+        workers = min(workers, int(os.environ["VERIF_WORKERS"]))
     cmd = ["java", "-XX:+UseParallelGC", "-Xmx8g"]
     if deque:
         cmd.append("-Dtlc2.tool.queue.IStateQueue=StateDeque")
